@@ -1442,3 +1442,39 @@ package ion
 //@ trusted thin: assumed to return a decimal or an error (text parsing not under contract)
 //@ modifies nothing
 //@ ensures err == nil ==> result != nil
+
+// ---------------------------------------------------------------------------
+// marshal.go: the kind dispatch of the encoder hands each Go value to the Writer method of
+// its Ion type with exactly that value (C16); an unsigned value reaches WriteInt only when
+// it cannot exceed the signed range (C13).
+
+//@ func (*Encoder).encodePtr
+//@ trusted thin: called by contract (recursive with encodeValue)
+//@ modifies *
+//@ func (*Encoder).encodeStruct
+//@ trusted thin: called by contract (reflection-heavy, not under contract)
+//@ modifies *
+//@ func (*Encoder).encodeMap
+//@ trusted thin: called by contract (reflection-heavy, not under contract)
+//@ modifies *
+//@ func (*Encoder).encodeSlice
+//@ trusted thin: called by contract (reflection-heavy, not under contract)
+//@ modifies *
+//@ func (*Encoder).encodeArray
+//@ trusted thin: called by contract (reflection-heavy, not under contract)
+//@ modifies *
+
+//@ func (*Encoder).encodeValue
+//@ split returns
+//@ requires m.w != nil
+//@ modifies *
+//@ atcall[C16] Writer.WriteBool :: Writer, bool :: v.Kind() == reflect.Bool && a1 == v.Bool()
+//@ atcall[C13,C16] Writer.WriteInt :: Writer, int64 ::
+//@    ((v.Kind() == reflect.Int || v.Kind() == reflect.Int8 || v.Kind() == reflect.Int16 || v.Kind() == reflect.Int32 || v.Kind() == reflect.Int64) && a1 == v.Int()) ||
+//@    ((v.Kind() == reflect.Uint8 || v.Kind() == reflect.Uint16 || v.Kind() == reflect.Uint32) && a1 >= 0 && uint64(a1) == v.Uint())
+//@ atcall[C13,C16] Writer.WriteBigInt :: Writer, *big.Int ::
+//@    (v.Kind() == reflect.Uint || v.Kind() == reflect.Uint64 || v.Kind() == reflect.Uintptr) && a1 != nil && a1.IsUint64() && a1.Uint64() == v.Uint()
+//@ atcall[C13,C16] Writer.WriteFloat :: Writer, float64 :: (v.Kind() == reflect.Float32 || v.Kind() == reflect.Float64) && (a1 == v.Float() || (a1 != a1 && v.Float() != v.Float()))
+//@ atcall[C16] Writer.WriteString :: Writer, string :: v.Kind() == reflect.String && hint != SymbolType
+//@ atcall[C16] Writer.WriteSymbolFromString :: Writer, string :: v.Kind() == reflect.String && hint == SymbolType
+//@ atcall[C16] Writer.WriteNull :: Writer :: !v.IsValid()
